@@ -73,5 +73,101 @@ def rule_o2(repo):
     return res
 
 
+def _drops_contr(repo, call, mode_of):
+    """Does this call turn a contradiction into "no conclusion"?  `f(x)` with f(p) = NoConcl() if isinstance(p, Contr) else p,
+    or `mode_result(m, x)` where m is known (from the enclosing `em == ..` branch) to be a mode whose case drops Contr."""
+    def is_drop_expr(e, param):
+        return isinstance(e, ast.IfExp) and isinstance(e.body, ast.Call) and call_name(e.body) == 'NoConcl' and \
+            isinstance(e.test, ast.Call) and call_name(e.test) == 'isinstance' and len(e.test.args) == 2 and \
+            is_name(e.test.args[0], param) and is_name(e.test.args[1], 'Contr') and is_name(e.orelse, param)
+    name = call_name(call)
+    solve = repo.func('prover/omega.py', 'solve')
+    f = solve.nested.get(name) or repo.module('prover/omega.py').functions.get(name)
+    if f is None:
+        return False
+    ps = f.params()
+    rets = [r for r in ast.walk(f.node) if isinstance(r, ast.Return)]
+    if len(ps) == 1:
+        return len(rets) == 1 and is_drop_expr(rets[0].value, ps[0])
+    if len(ps) == 2 and len(call.args) == 2 and isinstance(call.args[0], ast.Name):
+        mode = mode_of(call.args[0].id)
+        if mode is None:
+            return False
+        for n in ast.walk(f.node):
+            if isinstance(n, ast.If):
+                cp = compare_parts(n.test)
+                if not cp or not is_name(cp[1], ps[0]):
+                    continue
+                hit = (cp[0] is ast.Eq and is_name(cp[2], mode)) or \
+                      (cp[0] is ast.In and isinstance(cp[2], (ast.Tuple, ast.List)) and any(is_name(e, mode) for e in cp[2].elts))
+                if hit:
+                    r = [x for st in n.body for x in ast.walk(st) if isinstance(x, ast.Return)]
+                    return len(r) == 1 and is_drop_expr(r[0].value, ps[1])
+    return False
+
+
+def rule_o3(repo):
+    """The dark shadow is a sufficient condition for an integer solution, not a necessary one: a
+    contradiction found while searching it (modes DARK / EDARK) proves nothing about the original system.
+    Every result of such a sub-search that is handed on must pass through a function that turns a
+    contradiction into "no conclusion"; only the exact and the real-shadow searches may report one."""
+    res = RuleResult('C16.O3', 'a contradiction found in a dark-shadow search is never handed on as a contradiction of the system', floor=5)
+    f = repo.func('prover/omega.py', 'solve')
+    mode_param = f.params()[0]
+    parent = {}
+    for n in ast.walk(f.node):
+        for ch in ast.iter_child_nodes(n):
+            parent[id(ch)] = n
+
+    def mode_at(node):
+        """the value of the mode parameter established by the enclosing `if em == X` chain, or None"""
+        cur, prev = node, None
+        while id(cur) in parent:
+            prev, cur = cur, parent[id(cur)]
+            if isinstance(cur, ast.If):
+                cp = compare_parts(cur.test)
+                if cp and cp[0] is ast.Eq and is_name(cp[1], mode_param) and isinstance(cp[2], ast.Name) and prev in cur.body:
+                    return cp[2].id
+                if cp and is_name(cp[1], mode_param) and prev in cur.orelse and not (len(cur.orelse) == 1 and isinstance(cur.orelse[0], ast.If) and compare_parts(cur.orelse[0].test) and is_name(compare_parts(cur.orelse[0].test)[1], mode_param)):
+                    # the final else of the chain: every mode tested above is excluded; with four modes the remaining one is DARK
+                    tested = []
+                    c2 = cur
+                    while True:
+                        cp2 = compare_parts(c2.test)
+                        if cp2 and is_name(cp2[1], mode_param) and isinstance(cp2[2], ast.Name):
+                            tested.append(cp2[2].id)
+                        up = parent.get(id(c2))
+                        if isinstance(up, ast.If) and c2 in up.orelse:
+                            c2 = up
+                        else:
+                            break
+                    rest = [m for m in ('EXACT', 'REAL', 'EDARK', 'DARK') if m not in tested]
+                    return rest[0] if len(rest) == 1 else None
+        return None
+    subs = [n for n in walk_no_nested(f.node, include_root=False) if isinstance(n, ast.Assign) and isinstance(n.value, ast.Call) and
+            call_name(n.value) == 'solve' and n.value.args and isinstance(n.value.args[0], ast.Name) and n.value.args[0].id in ('DARK', 'EDARK')]
+    need(len(subs) >= 4, 'omega.solve: sub-searches in dark-shadow mode not found')
+    for a in subs:
+        v = a.targets[0].id
+        # the return that hands the result on: the next return in the same block that mentions v
+        blk = parent[id(a)]
+        body = blk.body if a in getattr(blk, 'body', []) else blk.orelse
+        rets = [st for st in body[body.index(a) + 1:] if isinstance(st, ast.Return) and any(is_name(x, v) for x in ast.walk(st))]
+        need(rets, 'omega.solve: result of a dark-shadow sub-search is not returned in its block')
+        r = rets[0]
+        ok = False
+        c = r.value
+        while isinstance(c, ast.Call):
+            if _drops_contr(repo, c, lambda nm, r=r: mode_at(r) if nm == mode_param else None):
+                ok = True
+                break
+            c = c.args[-1] if c.args else None
+        res.add('prover/omega.py :: solve :: dark-result@%s(%s)' % (mode_at(a) or '?', src(a.value, 40)), ok,
+                'a contradiction is turned into "no conclusion" before the result is returned' if ok else
+                '`%s` hands on the result of a dark-shadow search as it is (in mode %s): a contradiction there becomes the verdict UNSAT for a '
+                'system that has an integer solution (2x + 3y = 1 was answered UNSAT)' % (src(r, 70), mode_at(r)), 'prover/omega.py:%d' % r.lineno)
+    return res
+
+
 def rules(repo):
-    return [rule_o1(repo), rule_o2(repo)]
+    return [rule_o1(repo), rule_o2(repo), rule_o3(repo)]
